@@ -7,12 +7,24 @@
 #                                             n<k> = OctetsStream.Read(make([]byte,k))
 # result: R=<value | E:<error> | PANIC>@<Position()>/<Len()>+<alloc> ; ...
 #         alloc: model = bytes requested from make(); implementation = runtime.MemStats.TotalAlloc delta
+#
+# case:   c12s <stream op> ... | <read op> ... | <stream op> ... | <read op> ...   ONE stream, segments in turn: C13's
+#                                             vocabulary (w<n> x<hex> r<n> s<whence>:<offset> t z, syntax of vlib/c13.py),
+#                                             then the read ops above, then stream ops again, ...
+# result: one part per segment joined by " || ": <c13S trace: ret b=<Bytes()> l=<Len()> p=<Position()> ; ...> for stream
+#         ops, R=<as above> B=<Bytes() afterwards> for read calls
+#         model = brg_phases (models/StreamReads.v): StreamOps.v for the stream-op segments, the state translations
+#         brg_oct / brg_stm (proved to make the two models agree in proofs/OctetsBridge.v), Octets.v readers for the read
+#         segments (theorems c12_reads_safe_after_any_ops, c12_reads_safe_in_any_alternation)
 import os
 
 from . import common, pure, octets
+from . import c13 as stream_ops  # case syntax, comparison and the independent FIFO reference monitor of the stream-op part
 from .octets import parse_fields, parse_rds, uleb128
 
 ID = "C12"
+PROOFS = octets.PROOFS + ["proofs/OctetsBridge.v", "models/StreamReads.v", "models/StreamOps.v", "proofs/StreamOpsProofs.v",
+                          "lib/GoSlice.v"]
 # one P: the TotalAlloc meter stops the world twice per call, which is cheap only without other Ps
 ENV = dict(os.environ, GOMAXPROCS="1")
 FIXED = {"b": 1, "y": 1, "h": 2, "i": 4, "l": 8}
@@ -35,6 +47,74 @@ def case_parts(case):
 
 
 def compare(case, model, impl, strict=False):
+    if case.startswith("c12s"):
+        return compare_s(case, model, impl, strict)
+    return compare_reads(model, impl, strict)
+
+
+def segments(case):
+    """'c12s <stream ops> | <read ops> | <stream ops> | ...' -> [[tokens], ...] (even = stream ops, odd = read calls)"""
+    segs = [[]]
+    for tok in case.split()[1:]:
+        if tok == "|":
+            segs.append([])
+        else:
+            segs[-1].append(tok)
+    return segs
+
+
+def stream_toks(segs):
+    return [tok for k in range(0, len(segs), 2) for tok in segs[k]]
+
+
+def read_toks(segs):
+    return [tok for k in range(1, len(segs), 2) for tok in segs[k]]
+
+
+def parts_of(out):
+    """one part per segment; None if the line is not a c12s result"""
+    if out.startswith("PANIC") or out.startswith("MODEL-EXN") or out == "BADCASE":
+        return None
+    return [x.strip() for x in out.split(" || ")]
+
+
+def read_part(part):
+    """'R=<rds> B=<hex|PANIC>' -> (R field, B field) or None"""
+    f = parse_fields(part)
+    if f is None or "R" not in f or "B" not in f:
+        return None
+    return f["R"], f["B"]
+
+
+def compare_s(case, model, impl, strict=False):
+    pm, pi = parts_of(model), parts_of(impl)
+    if pm is None:
+        return "model produced no result (%s)" % model[:100]
+    if pi is None:
+        return "implementation produced no result (%s)" % impl[:100]
+    segs = segments(case)
+    for k, seg in enumerate(segs):
+        if k >= len(pm) or k >= len(pi):
+            break
+        if k % 2 == 0:
+            note = stream_ops.compare("c13S " + " ".join(seg), pm[k], pi[k])
+            if note is not None:
+                return "segment %d (stream operations): %s" % (k, note)
+        else:
+            rm, ri = read_part(pm[k]), read_part(pi[k])
+            if rm is None or ri is None:
+                return "segment %d (read calls): unparsable result" % k
+            note = compare_reads("R=" + rm[0], "R=" + ri[0], strict)
+            if note is not None:
+                return "segment %d (read calls after %d stream ops): %s" % (k, len(stream_toks(segs[:k])), note)
+            if rm[1] != ri[1]:
+                return "segment %d (read calls): Bytes() afterwards differs: model %s vs implementation %s" % (k, rm[1][:60], ri[1][:60])
+    if len(pm) != len(pi):
+        return "number of segments run differs: model %d, implementation %d" % (len(pm), len(pi))
+    return None
+
+
+def compare_reads(model, impl, strict=False):
     pm, pi = parse_fields(model), parse_fields(impl)
     if pm is None:
         return "model produced no result (%s)" % model[:100]
@@ -78,16 +158,78 @@ def ref_7bit(data, pos):
 
 def monitor(case, impl):
     """The property text on the implementation's observation, without the model."""
+    if case.startswith("c12s"):
+        return monitor_s(case, impl)
     pi = parse_fields(impl)
     if pi is None:
         return ("panic", "no result / panic outside a read call: " + impl[:200])
     data, ops = case_parts(case)
-    rds = parse_rds(pi["R"])
+    return monitor_reads(data, ops, pi["R"], 0, "")
+
+
+def monitor_s(case, impl):
+    """c12s: (1) C13's FIFO reference monitor over the WHOLE history -- every read segment enters it as one Read of as
+    many bytes as the typed calls consumed, returning the bytes that were unread before, and Bytes() after the segment
+    must be what the reference says is left (typed reads never disturb the buffer; the cursor stays inside the data
+    after every op); (2) the C12 monitor on every read segment, started from the Bytes()/Len()/Position() the
+    implementation showed before it."""
+    parts = parts_of(impl)
+    if parts is None:
+        return ("panic", "no result / panic outside a call: " + impl[:200])
+    segs = segments(case)
+    ptoks, plines, checks = [], [], []
+    unread, ln, pos = b"", 0, 0
+    broken = None
+    for k, seg in enumerate(segs):
+        if k >= len(parts):
+            break
+        if k % 2 == 0:
+            lines = stream_ops.split_trace(parts[k])
+            ptoks += seg
+            plines += lines
+            if lines:
+                o = stream_ops.parse_line("S", lines[-1])
+                if o is None or o["panic"] or o.get("b") == "PANIC":
+                    # the reference monitor reports it; the reads that follow show what the cursor does to a decoder
+                    if k + 1 < len(parts) and k + 1 < len(segs):
+                        rp = read_part(parts[k + 1])
+                        if rp is not None and "PANIC@" in rp[0]:
+                            broken = "; then read call #%d (%s) panicked" % next(
+                                (j, op) for j, (op, r) in enumerate(zip(segs[k + 1], rp[0].split(";"))) if r.startswith("PANIC@"))
+                    break
+                unread, ln, pos = bytes.fromhex(o["b"]), int(o["l"]), int(o["p"])
+        else:
+            rp = read_part(parts[k])
+            if rp is None:
+                return ("panic", "segment %d: read calls not run: %s" % (k, parts[k][:100]))
+            checks.append((bytes(pos) + unread, seg, rp[0], pos, "after %d stream ops, " % len(ptoks)))
+            rds = parse_rds(rp[0])
+            npos, nln = (rds[-1][1], rds[-1][2]) if rds else (pos, ln)
+            delta = npos - pos
+            if rp[1] == "PANIC" or delta < 0 or any(r[0] in ("PANIC", "GUARD") for r in rds):
+                break  # reported by the read monitor below
+            ptoks.append("r%d" % delta)
+            plines.append("R%d:%s%s b=%s l=%d p=%d" % (delta, unread[:delta].hex(), ":E" if delta == 0 else "", rp[1], nln, npos))
+            unread, ln, pos = bytes.fromhex(rp[1]), nln, npos
+    mf = stream_ops.monitor("c13S " + " ".join(ptoks), " ; ".join(plines))
+    if mf is not None:
+        return ("stream-op-" + mf[0], "stream operations (read segments shown as r<bytes consumed>): " + mf[1] + (broken or ""))
+    for data, rops, field, pos0, prefix in checks:
+        mr = monitor_reads(data, rops, field, pos0, prefix)
+        if mr is not None:
+            return mr
+    if len(parts) != len(segs):
+        return ("panic", "%d segments run of %d" % (len(parts), len(segs)))
+    return None
+
+
+def monitor_reads(data, ops, field, pos0, prefix):
+    rds = parse_rds(field)
     if len(rds) != len(ops):
         return ("result-count", "result count")
-    pos = 0
+    pos = pos0
     for k, (op, (val, npos, ln, alloc)) in enumerate(zip(ops, rds)):
-        what = "call %d (%s at position %d of %d bytes)" % (k, op, pos, len(data))
+        what = prefix + "call %d (%s at position %d of %d bytes)" % (k, op, pos, len(data))
         if val == "GUARD":
             return None  # earlier calls of this run already reported the huge allocation
         if val == "PANIC":
@@ -98,6 +240,8 @@ def monitor(case, impl):
             return ("len-changed", what + ": Len() = %d" % ln)
         if not (0 <= npos <= ln):
             return ("cursor-out-of-bounds", what + ": Position() = %d outside [0, %d]" % (npos, ln))
+        if npos < pos:
+            return ("cursor-moved-back", what + ": Position() went from %d to %d" % (pos, npos))
         remaining = len(data) - pos
         if alloc > remaining + slack(remaining):
             return ("alloc-unbounded", what + ": allocated %d bytes with only %d bytes of input left" % (alloc, remaining))
@@ -120,6 +264,12 @@ def monitor(case, impl):
 
 
 def nontrivial(case, model):
+    if case.startswith("c12s"):
+        # a Seek / Tidy / Reset in front of at least one read call that returns data or fails
+        segs = segments(case)
+        if parts_of(model) is None or not read_toks(segs):
+            return False
+        return any(x[0] in "stz" for x in stream_toks(segs))
     pm = parse_fields(model)
     if pm is None:
         return False
@@ -238,7 +388,65 @@ def gen(rng, tier):
             s = bytes(rng.choice([0, 1, 2, 3, 4]) for _ in range(n))
         sq.append("c12 %s %s" % (hexd(s), " ".join(rand_ops(rng, rng.range(1, 14)))))
     streams.append(("read-sequences", sq))
+    streams.append(("reads-after-seek-tidy-reset", gen_after_ops(rng, quick)))
     return streams
+
+
+# stream ops of C13's vocabulary: two payloads that decode as length-prefixed / 7-bit data, reads, every whence with
+# offsets landing inside, at the ends of, before and behind the data, an invalid whence, Tidy, Reset
+S_ALPHA = ["x0502414207", "x8001", "w3", "r1", "r2", "s0:0", "s0:1", "s0:5", "s0:-1", "s1:1", "s1:-1", "s1:-3",
+           "s2:0", "s2:-1", "s2:1", "s2:-9", "s3:0", "t", "z"]
+S_READS = OPS + ["n0", "n1", "n3"]
+
+
+def gen_after_ops(rng, quick):
+    out = []
+
+    def tail():
+        return "%s %s sy" % (rng.choice(S_READS), rng.choice(S_READS))
+    # bounded-exhaustive: every op sequence up to length 2 (3 in the thorough tier) x three read tails
+    for n in range(0, 3 if quick else 4):
+        for p in stream_ops.product(S_ALPHA, n):
+            for _ in range(3 if n <= 2 else 1):
+                out.append("c12s %s | %s" % (" ".join(p), tail()))
+    for _ in range(3000 if quick else 60000):
+        n = 3 if quick else 4
+        out.append("c12s %s | %s" % (" ".join(rng.choice(S_ALPHA) for _ in range(n)), tail()))
+    # valid encodings, partly consumed, cursor moved back / forward by Seek, optionally compacted, then re-read typed
+    for _ in range(600 if quick else 8000):
+        vals = [("i", rng.range(-5, 5)), ("v", rng.choice([0, 1, 127, 128, 300, -1])), ("B", bytes(rng.below(256) for _ in range(rng.below(5)))),
+                ("h", rng.range(-300, 300)), ("l", rng.range(-(1 << 40), 1 << 40))]
+        vals = [vals[rng.below(len(vals))] for _ in range(rng.range(1, 4))]
+        enc = b"".join(octets.ref_encode(t_, v) for t_, v in vals)
+        k = rng.range(0, len(enc))
+        ops = ["x" + enc.hex(), "r%d" % k]
+        ops.append(rng.choice(["s1:%d" % -k, "s0:0", "s2:%d" % -len(enc), "s1:%d" % rng.range(-k - 2, len(enc) - k + 2),
+                               "s0:%d" % rng.range(-1, len(enc) + 1), "s2:%d" % rng.range(-len(enc) - 1, 1)]))
+        if rng.chance(1, 3):
+            ops.append("t")
+        if rng.chance(1, 4):
+            ops.append("x" + octets.ref_encode("B", b"xyz").hex())
+        reads = [t_ if t_ in "vBS" else rng.choice("sr") + t_ for t_, _ in vals] + rand_ops(rng, rng.below(3))
+        out.append("c12s %s | %s" % (" ".join(ops), " ".join(reads)))
+    # alternations: stream ops | reads | stream ops | reads | ... (2-4 rounds) on one stream
+    for _ in range(1500 if quick else 25000):
+        segs = []
+        for _r in range(rng.range(2, 4)):
+            ops = []
+            for _o in range(rng.range(0, 4)):
+                if rng.chance(1, 4):
+                    t_, v = rng.choice([("i", rng.range(-5, 5)), ("v", rng.choice([0, 1, 127, 128, 300, -1])), ("B", bytes(rng.below(256) for _ in range(rng.below(5)))),
+                                        ("h", rng.range(-300, 300)), ("S", b"hi")])
+                    ops.append("x" + octets.ref_encode(t_, v).hex())
+                else:
+                    ops.append(rng.choice(S_ALPHA))
+            segs.append(" ".join(ops))
+            segs.append(" ".join(rand_ops(rng, rng.range(0, 4))))
+        out.append("c12s " + " | ".join(segs))
+    # long random op sequences (C13's generator: boundary-biased offsets up to +-2^63), then random read sequences
+    for c in stream_ops.gen_stream_random(rng, 300 if quick else 4000):
+        out.append("c12s %s | %s" % (c[len("c13S "):], " ".join(rand_ops(rng, rng.range(1, 8)))))
+    return out
 
 
 # ---------------------------------------------------------------- vm_compute cross-check
@@ -268,8 +476,61 @@ Print bad.
     return len(items)
 
 
+def coq_stm_op(op):
+    if op[0] == "w":
+        return "SWrite %s" % octets.coq_zlist(list(op[1]))
+    if op[0] == "r":
+        return "SRead %d%%nat" % op[1]
+    if op[0] == "s":
+        return "SSeek (%d) (%d)" % (op[2], op[1])
+    return {"t": "STidy", "z": "SReset"}[op[0]]
+
+
+def coq_crosscheck_s(chk, cases, model_out):
+    items = []
+    for c, m in zip(cases, model_out):
+        pm = parts_of(m)
+        segs = segments(c)
+        if pm is None or len(pm) != len(segs) or len(c) > 400:
+            continue
+        _, ops = stream_ops.parse_case("c13S " + " ".join(stream_toks(segs)))
+        flat, terms = [], []
+        for k, seg in enumerate(segs):
+            if k % 2 == 0:
+                terms.append("BrgOps [%s]" % "; ".join(coq_stm_op(o) for o in ops[:len(seg)]))
+                ops = ops[len(seg):]
+                flat += [200] + stream_ops.flat_of_output("S", pm[k])
+            else:
+                terms.append("BrgReads [%s]" % ";".join(octets.coq_op(o) for o in seg))
+                r, b = read_part(pm[k])
+                flat += [201]
+                for rd in parse_rds(r):
+                    flat += octets.flat_rd(rd)
+                flat += [-2] if b == "PANIC" else [len(b) // 2] + list(bytes.fromhex(b))
+        items.append("(brg_phases StmFixed OctFixed stm_init [%s], %s)" % ("; ".join(terms), octets.coq_zlist(["(%d)" % x for x in flat])))
+    if not items:
+        return 0
+    body = octets.COQ_FLAT + """From Got Require Import GoSlice StreamOps StreamReads.
+Definition fl_obs (o : brg_seg_obs) : list Z :=
+  match o with
+  | BrgOpsObs t => 200 :: flat_map stm_flat_line t
+  | BrgReadsObs rs b => 201 :: flat_map fl_rd rs ++ match b with Ok d => stm_flat_bytes d | _ => [-2] end
+  end.
+Definition ok (c : list brg_seg_obs * list Z) : bool := zl_eqb (flat_map fl_obs (fst c)) (snd c).
+Definition cases := [%s].
+Definition bad := Eval vm_compute in length (filter (fun c => negb (ok c)) cases).
+Print bad.
+""" % ";\n".join(items)
+    out = common.run_coq_eval(body)
+    if "bad = 0%nat" not in out.replace("\n", " "):
+        chk.diverge("vm_compute-vs-extraction", "sample of %d c12s cases" % len(items), out[-300:], "", "extracted OCaml model disagrees with vm_compute")
+    return len(items)
+
+
 # ---------------------------------------------------------------- entry points
 WITNESS = "c12 ffffffff07 B"
+# c12_reads_after_orig_seek_refuted: the pre-fix Seek accepted a position behind the data
+WITNESS_S = "c12s x01020304 s0:10 | sy n1 ri"
 
 
 def run_all(chk, binary, streams):
@@ -318,6 +579,23 @@ def run_all(chk, binary, streams):
     # measured distribution: outcome per kind of call (from the model's results), input lengths, allocating calls
     kinds, lens, allocs = {}, {}, 0
     for c, m in zip(cases, model):
+        if c.startswith("c12s"):
+            ps = parts_of(m)
+            if ps is None:
+                continue
+            sg = segments(c)
+            lens["after-stream-ops"] = lens.get("after-stream-ops", 0) + 1
+            key = "c12s-segments:%d" % len(sg)
+            lens[key] = lens.get(key, 0) + 1
+            for k in range(1, min(len(sg), len(ps)), 2):
+                rp = read_part(ps[k])
+                if rp is None:
+                    continue
+                for op, rd in zip(sg[k], parse_rds(rp[0])):
+                    typ = op[-1] if op[0] != "n" else "n"
+                    key = "after-ops:" + typ + ":" + (rd[0] if rd[0].startswith("E:") or rd[0] == "PANIC" else "ok")
+                    kinds[key] = kinds.get(key, 0) + 1
+            continue
         pm = parse_fields(m)
         if pm is None:
             continue
@@ -348,31 +626,53 @@ def canary(chk, binary):
                              orig_differs=d_orig is not None, fixed_agrees=d_fixed is None)
     if d_orig is None and d_fixed is None:
         chk.diverge("canary", WITNESS, orig, impl, "the pre-fix model (2^31-1 bytes requested) is not distinguished from the implementation: alloc observation too weak")
+    # the pre-fix Seek: the model variant StmOrig leaves the cursor behind the data and the typed Read panics
+    impl = common.run_impl(binary, [WITNESS_S], env=ENV)[0]
+    orig = common.run_model(["c12so" + WITNESS_S[4:]])[0]
+    fixed = common.run_model([WITNESS_S])[0]
+    d_orig = compare(WITNESS_S, orig, impl)
+    d_fixed = compare(WITNESS_S, fixed, impl)
+    chk.cov["canary_reads_after_seek"] = dict(case=WITNESS_S, model_orig_seek=orig, model_fixed=fixed, impl=impl,
+                                              orig_differs=d_orig is not None, fixed_agrees=d_fixed is None,
+                                              orig_model_read_panics="PANIC@" in orig)
+    if d_orig is None or "PANIC@" not in orig:
+        chk.diverge("canary", WITNESS_S, orig, impl, "the pre-fix Seek model (cursor behind the data, Read panics) is not distinguished from the implementation")
 
 
 def run(chk):
     chk.trusted = octets.TRUSTED
-    chk.assumptions = ["position <= len(buffer) at the first call (documented invariant; kept by every read - proved - and by Seek since fix 6fe9801, which is C13's subject)",
+    chk.assumptions = ["position <= len(buffer) at the first call of the per-call theorems (c12_read_*): discharged by c12_reads_safe_after_any_ops for every "
+                       "state reachable from the empty stream by Write/Read/Seek/Tidy/Reset (C13's cursor theorem carried across the proved bridge between "
+                       "the two models of OctetsStream); a stream whose fields were set by other means is outside the theorem",
                        "OctetsStream.Read is called with a buffer of length n >= 0"]
     chk.cov["rule"] = ("case = input byte string + a sequence of read calls of OctetsStream/OctetsReader; streams: every byte string up to length 3 over "
                        "{00,01,0f,10,7f,80,ff} x every read op, lengths 4-5(6) for the 7-bit decoder / length prefix, structure-aware malformed inputs "
                        "(truncated values, over-long 7-bit runs, prefixes larger than the rest up to 2^31-1, negative and non-canonical lengths), random read "
-                       "sequences; non-trivial = some call fails or is a 7-bit / length-prefixed / raw read; distinct = distinct case line")
-    chk.run_proof_gate(octets.PROOFS)
+                       "sequences; reads-after-seek-tidy-reset: c12s cases = a sequence of stream operations (C13's vocabulary: every sequence up to length 2(3) over "
+                       "19 ops incl. seeks before / behind the data and an invalid whence, random length-3(4) sequences, valid encodings partly consumed and "
+                       "re-read after a Seek / Tidy, long random sequences with offsets up to +-2^63) followed by typed read calls on the same stream, and "
+                       "alternations of 2-4 rounds stream ops | reads | stream ops | reads; "
+                       "non-trivial = some call fails or is a 7-bit / length-prefixed / raw read (c12s: a Seek/Tidy/Reset precedes the reads); distinct = distinct case line")
+    chk.run_proof_gate(PROOFS)
     binary = pure.build_pure(chk)
     if binary:
-        streams = [("corpus", [c for c in pure.corpus_cases(ID) if c.startswith("c12 ")])] + gen(chk.rng, chk.tier)
+        streams = [("corpus", [c for c in pure.corpus_cases(ID) if c.startswith("c12 ") or c.startswith("c12s ")])] + gen(chk.rng, chk.tier)
         cases, model, impl = run_all(chk, binary, streams)
         try:
             canary(chk, binary)
         except Exception as ex:
             chk.infra_errors.append("canary failed to run: %r" % (ex,))
         try:
-            idx = [k for k, c in enumerate(cases) if len(c) <= 400]
+            idx = [k for k, c in enumerate(cases) if len(c) <= 400 and c.startswith("c12 ")]
             step = max(1, len(idx) // 180)
             pick = idx[::step][:200]
             n = coq_crosscheck(chk, [cases[k] for k in pick], [model[k] for k in pick])
-            chk.cov["vm_compute_crosschecked"] = n
+            idx = [k for k, c in enumerate(cases) if len(c) <= 400 and c.startswith("c12s ")]
+            step = max(1, len(idx) // 110)
+            pick = idx[::step][:120]
+            n2 = coq_crosscheck_s(chk, [cases[k] for k in pick], [model[k] for k in pick])
+            chk.cov["vm_compute_crosschecked"] = n + n2
+            chk.cov["vm_compute_crosschecked_reads_after_ops"] = n2
         except Exception as ex:
             chk.infra_errors.append("vm_compute cross-check failed: %r" % (ex,))
     chk.finish(search=search)
@@ -383,7 +683,8 @@ def search(chk):
     if not binary:
         return
     streams = gen(chk.rng.fork(), "thorough")
-    cases = [WITNESS] + [c for _, cs in streams for c in cs][:150000]
+    after = [c for n_, cs in streams for c in cs if n_ == "reads-after-seek-tidy-reset"]
+    cases = [WITNESS, WITNESS_S] + after[:30000] + [c for n_, cs in streams for c in cs if n_ != "reads-after-seek-tidy-reset"][:150000]
     impl = common.run_impl(binary, cases, env=ENV)
     for c, i in zip(cases, impl):
         mf = monitor(c, i)
@@ -395,7 +696,7 @@ def replay(chk, path):
     import json
     rep = json.load(open(path))
     binary = pure.build_pure(chk)
-    cases = [x["case"] for x in rep.get("failing_inputs", []) + rep.get("divergences", []) if isinstance(x.get("case"), str) and x["case"].startswith("c12 ")]
+    cases = [x["case"] for x in rep.get("failing_inputs", []) + rep.get("divergences", []) if isinstance(x.get("case"), str) and (x["case"].startswith("c12 ") or x["case"].startswith("c12s "))]
     impl = common.run_impl(binary, cases, env=ENV)
     model = octets.run_model_parallel(cases, nproc=1)
     bad = 0
